@@ -262,6 +262,47 @@ SPECS["C15"] = dict(
     ],
 )
 
+SPECS["C19"] = dict(
+    title="out-of-band messages: intact or absent, never disturb the stream",
+    level="exploration",
+    technique="rapid-generated OOB call patterns (boundary lengths, bursts beyond the queue depth, handler set/replaced/cleared) interleaved with generated lossy stream traffic; tagged-payload oracle at the handlers, independent wire decoder (ids, RS parity, MTU) on every datagram, stream completion bound",
+    level_text="TODO",
+    level_note="TODO",
+    design_ref="5/C19",
+    rule="TODO",
+    jobs=[
+        rapid("TestC19OOB", 300, 9000, sq=4, st=16),
+        plain("TestC19NoFEC", sq=1, st=1),
+    ],
+)
+
+SPECS["C11"] = dict(
+    title="sessions on one socket are isolated; one Accept per new peer",
+    level="exploration",
+    technique="rapid-generated multi-peer histories (1-8 clients, shared IPs, per-peer fault scripts, reconnects with a new conversation, late accept) with address/conv-keyed payload streams and injected foreign datagrams (replays from strangers, forged conv from the right address, third-address datagrams at dialled sessions); accept-count, content, digest and stall oracles",
+    level_text="TODO",
+    level_note="TODO",
+    design_ref="5/C11",
+    rule="TODO",
+    jobs=[
+        rapid("TestC11Isolation", 250, 8000, sq=4, st=16),
+    ],
+)
+
+SPECS["C03"] = dict(
+    title="a stalled reader throttles the sender and transfer resumes afterwards",
+    level="fault_enumeration",
+    technique="rapid-generated reader pause schedules x receive windows x time windows in which every WASK/WINS/ack-only datagram is dropped (classified by the independent decoder) x ordinary loss; window-discipline invariants at every step, bounded-liveness completion in virtual time",
+    level_text="TODO",
+    level_note="TODO",
+    design_ref="5/C03",
+    rule="TODO",
+    jobs=[
+        rapid("TestC03Core", 900, 30000, sq=4, st=16),
+        rapid("TestC03Session", 200, 6000, sq=4, st=16),
+    ],
+)
+
 NOTES = ("Every check is `./check <id> quick|thorough`; it rebuilds the harness against /repo's working tree with -tags verif, "
          "runs rapid / enumeration jobs in parallel shards seeded from VERIF_SEED, writes evidence/<id>.json, prints "
          "KNOWN-FINDING lines for entries of known_findings.jsonl that still reproduce, and exits 1 with a VIOLATION line otherwise. "
